@@ -89,6 +89,10 @@ def run_property(pid, tier, seed):
     extra = {}
     if tier == "thorough" and not os.environ.get("RM_REPO"):
         extra.update(_thorough_selftest(pid))
+    if tier == "thorough" and not os.environ.get("RM_REPO") and pid in WITNESSES:
+        wctx = Ctx(pid, F.load("lib")[0], tier, "witness")
+        _thorough_witness(wctx, pid)
+        all_obs += wctx.obs; notes += wctx.notes
     if tier == "thorough" and hasattr(mod, "thorough"):
         ctx = Ctx(pid, F.load("lib")[0], tier, "thorough-extra")
         extra = mod.thorough(ctx) or {}
@@ -154,6 +158,30 @@ def run_property(pid, tier, seed):
     print(f"{pid}: tier={tier} obligations={n_ob} discharged={n_ok} known={len(known_hit)} violations={len(viol)} undecided={len(und)} "
           f"bodies={meta['lib']['bodies']} wall={ev['wall_s']}s")
     return 1 if viol else 0
+
+
+WITNESSES = {"C05": ("W1UniqueNotClone", "W1bHandlesNotCopy"), "C14": ("W1UniqueNotClone", "W1bHandlesNotCopy", "W3BulkApiUnsafe"), "C10": ("W2StreamNotClone",)}
+
+def _thorough_witness(ctx, pid):
+    """thorough tier: type-level compile-fail witnesses (each paired with a compiling twin) built against /repo's current tree by rustdoc on nightly"""
+    import shutil, subprocess, re
+    wdir = os.path.join(VERIF, "witness")
+    shutil.copy(os.path.join(F.REPO, "Cargo.lock"), os.path.join(wdir, "Cargo.lock"))
+    env = dict(os.environ, CARGO_NET_OFFLINE="true", CARGO_TARGET_DIR=os.path.join(F.CACHE, "target-witness"))
+    env.pop("RUSTC_WORKSPACE_WRAPPER", None); env.pop("RUSTFLAGS", None)
+    r = subprocess.run(["cargo", "+nightly", "test", "--doc", "--offline"], cwd=wdir, env=env, capture_output=True, text=True)
+    out = r.stdout + r.stderr
+    results = {}
+    for m in re.finditer(r"test src/lib.rs - (\w+) \(line (\d+)\)( - compile fail)? \.\.\. (\w+)", out):
+        results.setdefault(m.group(1), []).append((bool(m.group(3)), m.group(4) == "ok"))
+    if not results:
+        raise F.InfraError("witness doctests did not run:\n" + out[-1500:])
+    for w in WITNESSES[pid]:
+        rs = results.get(w, [])
+        cf = [ok for (is_cf, ok) in rs if is_cf]; tw = [ok for (is_cf, ok) in rs if not is_cf]
+        ctx.ob("W", f"{w}|violating-program-rejected", bool(cf) and all(cf), "witness/src/lib.rs", f"{len(cf)} compile_fail doctest(s) with pinned error code: the violating program is rejected by the type checker")
+        ctx.ob("W", f"{w}|twin-compiles", bool(tw) and all(tw), "witness/src/lib.rs", f"{len(tw)} twin(s) differing only in the offending type compile (the witness does not fail for a wrong path)", nontrivial=False)
+    ctx.note(f"witness doctests: {sum(len(v) for v in results.values())} run")
 
 
 def _thorough_selftest(pid):
